@@ -16,7 +16,7 @@ import (
 // C11 — Copier reproduces the source object graph.
 
 func init() {
-	addRun("C11", "random source graphs (dicts, arrays, scalars, reference chains and pure reference cycles, free/dangling/wrong-generation references, object-stream members, streams 0..5000 bytes with 0-3 filters, /Crypt Identity and unsupported crypt filters, indirect /Length via a non-seekable writer, indirect /Filter and /DecodeParms, null dictionary entries, injected malformed and I/O-failing objects; document-level metadata absent, ordinary or Plaintext (/EncryptMetadata false for encrypted sources >= 1.6) with non-catalog /Type /Metadata streams owned by dictionaries and XObject streams, /Type /XObject and untyped streams) written by the real Writer x programs of 1-6 Copy/CopyReference/Redirect calls (the object returned by Copy is written at once or only after 1-3 further calls; in a quarter of the cases a stream is open on the target Writer during the whole program, so that every Put is queued) x 8 source and 8 target versions x source/target passwords x seekable or not x human-readable target. A case is non-trivial when the program reaches at least two source objects; distinct by seed-independent shape (model input line).", runCPY)
+	addRun("C11", "random source graphs (dicts, arrays, scalars, reference chains and pure reference cycles, free/dangling/wrong-generation references, object-stream members, streams 0..5000 bytes with 0-3 filters, /Crypt Identity and unsupported crypt filters (also into targets whose Writer.Put refuses them: encrypted with /V < 4, or a non-Identity filter), typed nil Dicts and Arrays, indirect /Length via a non-seekable writer, indirect /Filter and /DecodeParms, null dictionary entries, injected malformed and I/O-failing objects; document-level metadata absent, ordinary or Plaintext (/EncryptMetadata false for encrypted sources >= 1.6) with non-catalog /Type /Metadata streams owned by dictionaries and XObject streams, /Type /XObject and untyped streams) written by the real Writer x programs of 1-6 Copy/CopyReference/Redirect calls (the object returned by Copy is written at once or only after 1-3 further calls; in a quarter of the cases a stream is open on the target Writer during the whole program, so that every Put is queued) x 8 source and 8 target versions x source/target passwords x seekable or not x human-readable target. A case is non-trivial when the program reaches at least two source objects; distinct by seed-independent shape (model input line).", runCPY)
 	addReplay("C11", "copier", replayCPY)
 	setCanon("C11", canonReals)
 }
@@ -156,7 +156,7 @@ func (st *cpyRen) idOf(r pdf.Reference) int {
 // renWire writes the canonical form of o: null entries dropped, nil arrays as
 // null, keys in byte order, references renamed in order of discovery.
 func (st *cpyRen) renWire(sb *strings.Builder, o pdf.Object) {
-	if isNilObj(o) {
+	if cpyNil(o) {
 		sb.WriteString("z")
 		return
 	}
@@ -174,7 +174,7 @@ func (st *cpyRen) renWire(sb *strings.Builder, o pdf.Object) {
 	case pdf.Dict:
 		sb.WriteString("d")
 		for _, p := range sortedDict(x) {
-			if isNilObj(p.v) {
+			if cpyNil(p.v) {
 				continue
 			}
 			sb.WriteString(hx([]byte(p.k)) + ";")
@@ -426,8 +426,8 @@ func (c *cpyIso) matchObj(so, to pdf.Object, path string, inl int) {
 		c.fail("reference-invented", "%s: source has direct %T, copy has a reference", path, so)
 		return
 	}
-	if isNilObj(so) || isNilObj(to) {
-		if !(isNilObj(so) && isNilObj(to)) {
+	if cpyNil(so) || cpyNil(to) {
+		if !(cpyNil(so) && cpyNil(to)) {
 			c.fail("null-changed", "%s: source %T copy %T", path, so, to)
 		}
 		return
@@ -472,14 +472,14 @@ func (c *cpyIso) matchDict(x, y pdf.Dict, path string, streamDict bool) {
 		if streamDict && (p.k == "Filter" || p.k == "DecodeParms") {
 			inl = 2
 		}
-		if isNilObj(p.v) {
-			if !isNilObj(y[p.k]) {
+		if cpyNil(p.v) {
+			if !cpyNil(y[p.k]) {
 				c.fail("null-changed", "%s/%s: null entry became %T", path, p.k, y[p.k])
 			}
 			continue
 		}
 		tv, ok := y[p.k]
-		if !ok || isNilObj(tv) {
+		if !ok || cpyNil(tv) {
 			if inl > 0 {
 				// an indirect entry which resolves to null is dropped by inlining
 				if sr, isRef := p.v.(pdf.Reference); isRef {
@@ -494,7 +494,7 @@ func (c *cpyIso) matchDict(x, y pdf.Dict, path string, streamDict bool) {
 		c.matchObj(p.v, tv, path+"/"+string(p.k), inl)
 	}
 	for _, p := range sortedDict(y) {
-		if isNilObj(p.v) {
+		if cpyNil(p.v) {
 			continue
 		}
 		if _, ok := x[p.k]; !ok {
@@ -545,7 +545,7 @@ func (c *cpyIso) matchTop(sv pdf.Native, t pdf.Reference, path string, viaRef bo
 		c.fail("target-unreadable", "%s: target %v: %v", path, t, err)
 		return
 	}
-	if tv == nil && !isNilObj(sv) && c.afterFailure {
+	if tv == nil && !cpyNil(sv) && c.afterFailure {
 		// an object written during a call that later failed refers to a number that was
 		// allocated for the failing object and never written
 		c.fail("dangling-target-after-failed-copy", "%s: a call that returned without error yields a reference to target %v, which was never written (an earlier call failed while copying it); the source object is a %T", path, t, sv)
@@ -598,6 +598,97 @@ func (c *cpyIso) run() {
 	}
 }
 
+// cpyPutMayRefuse tells whether Writer.Put may refuse a stream with this dictionary in a target
+// whose encryption dictionary has /V tgtV (0: not encrypted): /Filter names /Crypt and either
+// the crypt filter is not the Identity filter, or it is not the first filter, or the target has
+// no crypt filters.  (Exactly when it is refused is what the model line says; this predicate
+// only separates "an error of Put can be the right answer" from "Put has to work".)
+func cpyPutMayRefuse(g pdf.Getter, d pdf.Dict, tgtV int) bool {
+	res := func(o pdf.Object) pdf.Object {
+		if g == nil {
+			return o
+		}
+		v, err := pdf.Resolve(g, o)
+		if err != nil {
+			return nil
+		}
+		return v
+	}
+	var names []pdf.Object
+	switch f := res(d["Filter"]).(type) {
+	case pdf.Name:
+		names = []pdf.Object{f}
+	case pdf.Array:
+		for _, e := range f {
+			names = append(names, res(e))
+		}
+	}
+	at := -1
+	for i, n := range names {
+		if n == pdf.Name("Crypt") {
+			if at < 0 {
+				at = i
+			}
+			if i > 0 {
+				return true
+			}
+		}
+	}
+	if at < 0 {
+		return false
+	}
+	if tgtV > 0 && tgtV < 4 {
+		return true
+	}
+	var parms pdf.Object
+	switch p := res(d["DecodeParms"]).(type) {
+	case pdf.Dict:
+		parms = p
+	case pdf.Array:
+		if len(p) > 0 {
+			parms = res(p[0])
+		}
+	}
+	if pd, ok := parms.(pdf.Dict); ok {
+		if nm, present := pd["Name"]; present {
+			n, isName := res(nm).(pdf.Name)
+			return !isName || (n != "" && n != "Identity")
+		}
+	}
+	return false
+}
+
+// cpyNil: the null object in one of its Go forms: nil, a typed nil Array, a typed nil Dict (the
+// Writer writes all three as `null`, D99)
+func cpyNil(o pdf.Object) bool {
+	if d, ok := o.(pdf.Dict); ok && d == nil {
+		return true
+	}
+	return isNilObj(o)
+}
+
+// cpyHasNilDict reports a typed nil Dict anywhere in o
+func cpyHasNilDict(o pdf.Object) bool {
+	switch x := o.(type) {
+	case pdf.Dict:
+		if x == nil {
+			return true
+		}
+		for _, v := range x {
+			if cpyHasNilDict(v) {
+				return true
+			}
+		}
+	case pdf.Array:
+		for _, v := range x {
+			if cpyHasNilDict(v) {
+				return true
+			}
+		}
+	}
+	return false
+}
+
 // ---- one case against the real code ----
 
 type cpyResult struct {
@@ -611,7 +702,41 @@ type cpyResult struct {
 	errClass string
 }
 
+// cpyNilDictKnown: Copier.CopyDict turns a typed nil Dict (which the Writer writes as `null`
+// since D99, like the nil Array CopyArray keeps) into an empty dictionary.  While this stands
+// (known finding nil-dict-copied-as-dict, patch fixes/D-CPY-7.diff) the cases which contain a
+// typed nil Dict are judged by the oracle only: the model reads "N" as null and copies null.
+// After the fix: set to false (the lines are then compared with the model like all others).
+const cpyNilDictKnown = false
+
+func cpyCaseHasNilDict(cs *cpyCase) bool {
+	for _, op := range cs.prog {
+		if op.kind == "co" && cpyHasNilDict(op.obj) {
+			return true
+		}
+	}
+	for _, nd := range cs.nodes {
+		if nd.ov == ovObj && cpyHasNilDict(nd.ovObj) {
+			return true
+		}
+	}
+	return false
+}
+
 func runCpyCase(cs *cpyCase, thorough bool) (res cpyResult) {
+	defer func() {
+		if !cpyCaseHasNilDict(cs) {
+			return
+		}
+		cs.features["nil-dict"] = true
+		if cpyNilDictKnown {
+			res.noEmit = true
+			if res.key == "null-changed" && strings.Contains(res.desc, "pdf.Dict") {
+				res.key = "nil-dict-copied-as-dict"
+				res.desc += " (a typed nil Dict, written as null by the Writer, is copied as an empty dictionary)"
+			}
+		}
+	}()
 	b, err := buildSource(cs)
 	if err != nil {
 		// the Writer or Reader refused the generated source: not a copier case
@@ -669,6 +794,39 @@ func runCpyCase(cs *cpyCase, thorough bool) (res cpyResult) {
 	}
 	tw.GetMeta().Catalog.Pages = pages
 	n0 := pages.Number() + 1
+	// /V of the target's encryption dictionary (0: not encrypted).  Writer.Put refuses a stream
+	// whose /Filter starts with /Crypt where crypt filters do not exist (/V < 4), and every
+	// non-Identity /Crypt filter: a copy which cannot be represented in the target fails, and
+	// that is the right answer as long as it fails cleanly.
+	tgtV := 0
+	if ed, ok := tw.GetMeta().Trailer["Encrypt"].(pdf.Dict); ok {
+		if v, ok := ed["V"].(pdf.Integer); ok {
+			tgtV = int(v)
+		}
+	}
+	refusable := false // some stream of the source cannot be written to this target
+	{
+		saved := b.S.gets
+		b.S.gets = -1 << 40
+		for _, nd := range cs.nodes {
+			if v, err := pdf.Resolve(b.S, nd.ref); err == nil {
+				if st, ok := v.(*pdf.Stream); ok && cpyPutMayRefuse(b.S, st.Dict, tgtV) {
+					refusable = true
+				}
+			}
+		}
+		b.S.gets = saved
+	}
+	if refusable {
+		cs.mayFail = true
+		aesOnly = false
+		cs.features["target-refuses-crypt"] = true
+		if cs.tgtOpen {
+			// every Put is queued while the stream is open: the refusal surfaces when the stream is
+			// closed, not in the call which handed the stream over (oracle only, see below)
+			res.noEmit = true
+		}
+	}
 	// "all copies while a stream is open on the target": Writer.Put then queues every object
 	// (those of CopyReference as well as the caller's) until the stream is closed.
 	var held io.WriteCloser
@@ -793,7 +951,8 @@ func runCpyCase(cs *cpyCase, thorough bool) (res cpyResult) {
 		d, _ := io.ReadAll(st.NewReader())
 		return d
 	}
-	putNow := func(p pendingPut) {
+	var refusedRefs []pdf.Reference // numbers whose Put the target refused: nothing may be in the file under them
+	putNow := func(p pendingPut) error {
 		if st, ok := p.obj.(*pdf.Stream); ok && res.key == "" {
 			for _, sn := range snaps {
 				if sn.stm == st && !bytes.Equal(sn.data, readStream(st)) {
@@ -802,24 +961,43 @@ func runCpyCase(cs *cpyCase, thorough bool) (res cpyResult) {
 				}
 			}
 		}
-		if err := tw.Put(p.ref, p.obj); err != nil && res.key == "" {
-			res.key = "put-of-copy-failed"
-			res.desc = fmt.Sprintf("Writer.Put(%v, <object returned by Copier.Copy>) failed: %v", p.ref, err)
+		err := tw.Put(p.ref, p.obj)
+		if err != nil {
+			if st, ok := p.obj.(*pdf.Stream); ok && cpyPutMayRefuse(nil, st.Dict, tgtV) {
+				// the target cannot take this stream: the caller's Put fails, nothing is written
+				refusedRefs = append(refusedRefs, p.ref)
+				for k := range snaps {
+					if snaps[k].stm == st {
+						snaps = append(snaps[:k], snaps[k+1:]...)
+						break
+					}
+				}
+				return err
+			}
+			if res.key == "" {
+				res.key = "put-of-copy-failed"
+				res.desc = fmt.Sprintf("Writer.Put(%v, <object returned by Copier.Copy>) failed: %v", p.ref, err)
+			}
 		}
+		return nil
 	}
 	// hand takes an object returned by Copy: allocate its number now, write it now or later
-	hand := func(i int, op cpyOp, o pdf.Native) pdf.Reference {
+	hand := func(i int, op cpyOp, o pdf.Native) (pdf.Reference, error) {
 		n := tw.Alloc()
 		if st, ok := o.(*pdf.Stream); ok {
 			snaps = append(snaps, streamSnap{ref: n, stm: st, data: readStream(st), op: i})
 		}
 		p := pendingPut{ref: n, obj: o, wait: op.later}
-		if op.later == 0 {
-			putNow(p)
+		if op.later == 0 || refusable {
+			// (where the target may refuse a stream the object is written at once, so that the
+			// refusal is the outcome of this operation)
+			if err := putNow(p); err != nil {
+				return 0, err
+			}
 		} else {
 			pending = append(pending, p)
 		}
-		return n
+		return n, nil
 	}
 	// tick is called after every operation: write what is due
 	tick := func(all bool) {
@@ -866,7 +1044,10 @@ func runCpyCase(cs *cpyCase, thorough bool) (res cpyResult) {
 			if err != nil {
 				return oc, err, ""
 			}
-			n := hand(i, op, o)
+			n, err := hand(i, op, o)
+			if err != nil {
+				return oc, err, ""
+			}
 			return outcome{ok: true, ref: n, sv: v}, nil, ""
 		case "co":
 			var nat pdf.Native
@@ -878,7 +1059,10 @@ func runCpyCase(cs *cpyCase, thorough bool) (res cpyResult) {
 			if err != nil {
 				return oc, err, ""
 			}
-			n := hand(i, op, o)
+			n, err := hand(i, op, o)
+			if err != nil {
+				return oc, err, ""
+			}
 			return outcome{ok: true, ref: n, sv: nat}, nil, ""
 		case "rn":
 			n := tw.Alloc()
@@ -911,7 +1095,7 @@ func runCpyCase(cs *cpyCase, thorough bool) (res cpyResult) {
 			res.key = "panic"
 			res.desc = fmt.Sprintf("operation %d (%s) panicked: %s", i, opToken(op), panicked)
 			res.line = fmt.Sprintf("panic %d", i)
-			res.opLine = fmt.Sprintf("CPY run %s n0=%d %s", exact, n0, strings.Join(toks, " "))
+			res.opLine = fmt.Sprintf("CPY run %s n0=%d tv=%d %s", exact, n0, tgtV, strings.Join(toks, " "))
 			return
 		}
 		if opErr != nil {
@@ -972,7 +1156,7 @@ func runCpyCase(cs *cpyCase, thorough bool) (res cpyResult) {
 	for _, op := range executed {
 		ops = append(ops, opToken(op))
 	}
-	res.opLine = fmt.Sprintf("CPY run %s n0=%d %s %s", exact, n0, strings.Join(toks, " "), strings.Join(ops, " "))
+	res.opLine = fmt.Sprintf("CPY run %s n0=%d tv=%d %s %s", exact, n0, tgtV, strings.Join(toks, " "), strings.Join(ops, " "))
 	res.opLine = strings.Join(strings.Fields(res.opLine), " ")
 
 	b.S.gets = 0
@@ -1014,6 +1198,12 @@ func runCpyCase(cs *cpyCase, thorough bool) (res cpyResult) {
 	if held != nil {
 		if err := held.Close(); err != nil {
 			res.line = "close-error"
+			if refusable && strings.Contains(err.Error(), "Crypt") {
+				// a queued stream the target cannot take: reported when the queue is written
+				res.failed = true
+				res.errClass = "other"
+				return
+			}
 			if res.key == "" {
 				res.key = "deferred-put-failed"
 				res.desc = "closing the stream which was open during the copies (this writes the queued objects): " + err.Error()
@@ -1068,6 +1258,28 @@ func runCpyCase(cs *cpyCase, thorough bool) (res cpyResult) {
 		default:
 			rs = append(rs, "-")
 			okRoots = append(okRoots, oc.ref)
+		}
+	}
+	// PDF 32000 7.6.6: crypt filters exist only where the encryption dictionary has /V 4 or 5; in
+	// a /V 1..3 file a conforming reader decrypts every stream, so a stream "left in the clear"
+	// behind /Crypt would be turned into garbage: no such stream may have been written.
+	if tgtV > 0 && tgtV < 4 && res.key == "" {
+		for n := uint32(1); n < probe; n++ {
+			obj, err := T.Get(pdf.NewReference(n, 0), true)
+			if st, ok := obj.(*pdf.Stream); ok && err == nil && cpyPutMayRefuse(nil, st.Dict, tgtV) {
+				res.key = "crypt-filter-without-crypt-filters"
+				res.desc = fmt.Sprintf("the target is encrypted with /V %d, which has no crypt filters, but object %d was written with /Filter %s", tgtV, n, wire(st.Dict["Filter"]))
+				break
+			}
+		}
+	}
+	for _, ref := range refusedRefs {
+		if res.key != "" {
+			break
+		}
+		if obj, err := T.Get(ref, true); err != nil || obj != nil {
+			res.key = "refused-put-left-trace"
+			res.desc = fmt.Sprintf("Writer.Put(%v, <stream returned by Copier.Copy>) was refused (the target cannot represent its /Crypt filter), yet the closed target has an entry for %v: Get returns %T, %v", ref, ref, obj, err)
 		}
 	}
 	for _, sn := range snaps {
@@ -1321,6 +1533,7 @@ func cpyCorpusCase(name string) *cpyCase {
 }
 
 func replayCPY(input string) (bool, string) {
+	wireNilDict = true
 	parts := strings.Fields(input)
 	if len(parts) != 2 {
 		return true, "bad replay input"
@@ -1347,6 +1560,7 @@ func replayCPY(input string) (bool, string) {
 }
 
 func runCPY(c *Ctx) {
+	wireNilDict = true // a typed nil Dict is the null object (D99); "N" on the wire, read as null
 	n := 9000
 	if c.Thorough {
 		n = 70000
